@@ -42,6 +42,10 @@ def classify(r):
     if io == "BUDGET":
         return "excluded-budget", ""
     s = r.get("spec")
+    if r.get("model") and stats(r["model"]).get("limit") == "1" and obs(r["model"]) == io:
+        # the machine hit its stack/frame limit (DESIGN 4.3 U7): the definitional semantics has no limits;
+        # implementation and machine model agree on where it happens
+        return "excluded-limit", ""
     if s is not None:
         if s == "UNSPEC":
             return "excluded-unspec", ""
